@@ -474,6 +474,13 @@ class Config:
                 value = verify_default_ew(value)
         else:
             value = str_to_value(value)
+            if (attribute in Config._INT_TYPE_ATTRIBUTES
+                    and value is not None
+                    and (not isinstance(value, int) or isinstance(value, bool))):
+                raise ValueError(
+                    f"Illegal value {value!r} "
+                    f"passed for attribute {attribute!r}. Expected int."
+                )
         if value is not None:
             setattr(self, attribute, value)
         return None
